@@ -101,10 +101,14 @@ def phase(prop, tier, seed, report, specs, accept=None):
         mode = "B (free-running threads, Miri scheduler)" if spec["free"] else "A (baton schedules)"
         report["jobs"].append({"engine": "miri:%s" % spec["engine"], "mode": mode, "plans": plans, "miri_seeds": nseeds,
                                "plan_seed_pairs": plans * nseeds, "wall_s": round(wall, 1), "completed_ok_results": r["ok"]})
-        report["evaluations"] += plans * nseeds
-        report["distinct_nontrivial"] += plans * nseeds if spec["free"] else plans
+        # what is counted is what ran to its end
+        report["evaluations"] += r["ok"]
+        report["distinct_nontrivial"] += r["ok"] if spec["free"] else min(plans, r["ok"])
         bad = r["rc"] != 0 or r["error"] or r["fails"]
         if not bad:
+            if r["ok"] != plans * nseeds:
+                # a phase that stops early without saying why has explored less than it claims
+                raise HarnessError("Miri phase %s/%s ended with exit 0 after %d of %d plan x seed runs" % (spec["package"], spec["engine"], r["ok"], plans * nseeds))
             continue
         if r["fails"]:
             # an oracle of the engine itself failed under Miri
